@@ -87,7 +87,7 @@ def rule_payload_btc(ctx):
         n_dec += 1
     ctx.check('payload_btc', 'has-decoded-alternative', n_dec >= 1, (b, i), '%d decoded alternative(s)' % n_dec)
     # the pattern is returned with no address (C05.addr) — here: returned at all
-    rets = [canon(b.call_expr(d[2])) for d in b.defs().get(0, []) if d[0] == 'call']
+    rets = [canon(b.call_expr(d[2])) for d in b.ret_defs() if d[0] == 'call']
     ctx.check('payload_btc', 'returned', any('ScriptPattern::OpReturn{' in r for r in rets), b, 'OpReturn pattern is returned')
 
 
@@ -96,7 +96,7 @@ def rule_payload_fork(ctx):
     p = prog.one("ScriptEvaluator::<'a>::eval_script_pattern")
     ctx.touch(p)
     found = 0
-    for d in p.defs().get(0, []):
+    for d in p.ret_defs():
         if d[0] != 'assign':
             continue
         c = canon(p.rvalue_expr(d[3]))
